@@ -42,6 +42,14 @@ Section Real.
       destruct Hposneg as [Ep|Ep]; rewrite Ep in *; repeat split; lra.
   Qed.
 
+  (* the abscissa after an accepted step: the landing step assigns xend itself (in exact arithmetic the same number) *)
+  Lemma xnew_eq x h :
+    (if ltb Rops (zero Rops) (mul Rops (sub Rops (add Rops x h) xend) posneg)
+     then xend else add Rops x (htry x h)) = add Rops x (htry x h).
+  Proof.
+    unfold htry. cbn. destruct (Rltb 0 ((x + h - xend) * posneg)); [ring|reflexivity].
+  Qed.
+
   Lemma factor_pos a : 0 < Rmax a (p_scale_min P).
   Proof. eapply Rlt_le_trans; [exact Hsmin|apply Rmax_r]. Qed.
 
@@ -73,6 +81,7 @@ Section Real.
     { cbn [r_x r_status]. repeat split; try lra; try discriminate; try (intros [E0 _]; contradiction). }
     change (if ltb Rops (zero Rops) (mul Rops (sub Rops (add Rops (s_x s) (s_h s)) xend) posneg)
             then sub Rops xend (s_x s) else s_h s) with (htry (s_x s) (s_h s)).
+    rewrite (xnew_eq (s_x s) (s_h s)).
     destruct (htry_spec (s_x s) (s_h s) Hx Hh) as [Hh' [Hend Hle]].
     set (h := htry (s_x s) (s_h s)) in *.
     set (a := kern (s_x s) (s_y s) (s_k1 s) h).
@@ -162,6 +171,7 @@ Section Real.
     destruct (N.leb _ _); [exact I|]. destruct (leb Rops _ _); [exact I|].
     change (if ltb Rops (zero Rops) (mul Rops (sub Rops (add Rops (s_x s) (s_h s)) xend) posneg)
             then sub Rops xend (s_x s) else s_h s) with (htry (s_x s) (s_h s)).
+    rewrite (xnew_eq (s_x s) (s_h s)).
     set (h := htry (s_x s) (s_h s)) in *.
     set (a := kern (s_x s) (s_y s) (s_k1 s) h).
     destruct (leb Rops (at_err a) (one Rops)).
